@@ -48,62 +48,73 @@ func TestBulk(t *testing.T) {
 			mismatch := func(desc string) {
 				res.Mismatch("bulk:"+name+":"+end, fmt.Sprintf("%s, session of %d unflushed writes ended by %s: %s", name, n, end, desc), map[string]any{"kind": "bulk", "backend": name, "end": end})
 			}
-			b, err := db.CreateBucket([]byte("b"))
-			if err != nil {
-				t.Fatal(err)
-			}
-			b.Put(key(0), []byte("old"))
-			b.Put(key(1), []byte("keep"))
-			db.Flush()
-			b = db.Bucket([]byte("b"))
-			b.Put(key(0), []byte("new"))
-			b.Delete(key(1))
-			for i := 2; i < n; i++ {
-				b.Put(key(i), []byte("v"))
-				if i%9973 == 0 {
-					b = db.Bucket([]byte("b")) // handles are looked up again all the time (as DBStore does)
+			func() {
+				defer func() {
+					// a panic inside a backend operation is a behaviour of the code under test
+					if r := recover(); r != nil {
+						mismatch(fmt.Sprintf("a backend operation panicked: %v", r))
+					}
+				}()
+				b, err := db.CreateBucket([]byte("b"))
+				if err != nil {
+					t.Fatal(err)
 				}
-			}
-			b = db.Bucket([]byte("b"))
-			if got := string(b.Get(key(0))); got != "new" {
-				mismatch(fmt.Sprintf("before the end, Get(key 0) = %q, want \"new\"", got))
-			}
-			want := map[string]string{string(key(0)): "old", string(key(1)): "keep"}
-			if end == "cancel" {
-				db.Cancel()
-			} else {
+				b.Put(key(0), []byte("old"))
+				b.Put(key(1), []byte("keep"))
 				db.Flush()
-				db.Cancel() // nothing unflushed: must change nothing
-				want = map[string]string{string(key(0)): "new"}
+				b = db.Bucket([]byte("b"))
+				b.Put(key(0), []byte("new"))
+				b.Delete(key(1))
 				for i := 2; i < n; i++ {
-					want[string(key(i))] = "v"
-				}
-			}
-			b = db.Bucket([]byte("b"))
-			if b == nil {
-				mismatch("the flushed bucket is gone")
-			} else {
-				got := 0
-				bad := ""
-				for k, v := range b.Iter() {
-					got++
-					if w, ok := want[string(k)]; !ok || w != string(v) {
-						bad = fmt.Sprintf("holds (%q, %q)", k, v)
+					b.Put(key(i), []byte("v"))
+					if i%9973 == 0 {
+						b = db.Bucket([]byte("b")) // handles are looked up again all the time (as DBStore does)
 					}
 				}
-				if bad != "" || got != len(want) {
-					mismatch(fmt.Sprintf("afterwards the bucket has %d keys, want %d; %s", got, len(want), bad))
+				b = db.Bucket([]byte("b"))
+				if got := string(b.Get(key(0))); got != "new" {
+					mismatch(fmt.Sprintf("before the end, Get(key 0) = %q, want \"new\"", got))
 				}
-				for _, i := range []int{0, 1, 2, n - 1} {
-					w := want[string(key(i))]
-					if g := string(b.Get(key(i))); g != w {
-						mismatch(fmt.Sprintf("afterwards Get(key %d) = %q, want %q", i, g, w))
+				want := map[string]string{string(key(0)): "old", string(key(1)): "keep"}
+				if end == "cancel" {
+					db.Cancel()
+				} else {
+					db.Flush()
+					db.Cancel() // nothing unflushed: must change nothing
+					want = map[string]string{string(key(0)): "new"}
+					for i := 2; i < n; i++ {
+						want[string(key(i))] = "v"
 					}
 				}
-			}
-			res.Eval(name + end)
+				b = db.Bucket([]byte("b"))
+				if b == nil {
+					mismatch("the flushed bucket is gone")
+				} else {
+					got := 0
+					bad := ""
+					for k, v := range b.Iter() {
+						got++
+						if w, ok := want[string(k)]; !ok || w != string(v) {
+							bad = fmt.Sprintf("holds (%q, %q)", k, v)
+						}
+					}
+					if bad != "" || got != len(want) {
+						mismatch(fmt.Sprintf("afterwards the bucket has %d keys, want %d; %s", got, len(want), bad))
+					}
+					for _, i := range []int{0, 1, 2, n - 1} {
+						w := want[string(key(i))]
+						if g := string(b.Get(key(i))); g != w {
+							mismatch(fmt.Sprintf("afterwards Get(key %d) = %q, want %q", i, g, w))
+						}
+					}
+				}
+				res.Eval(name + end)
+			}()
 			if closer != nil {
-				closer()
+				func() {
+					defer func() { recover() }()
+					closer()
+				}()
 			}
 		}
 	}
